@@ -214,7 +214,11 @@ func (w *World) ruleNoValueWalkingFormat(r *Report, rule string, reach map[*ssa.
 		for _, b := range fn.Blocks {
 			for _, in := range b.Instrs {
 				c, ok := in.(*ssa.Call)
-				if !ok || !w.isFormatter(c.Call.StaticCallee()) || len(c.Call.Args) == 0 {
+				if !ok || len(c.Call.Args) == 0 {
+					continue
+				}
+				logger := isLoggerCall(c)
+				if !logger && !w.isFormatter(c.Call.StaticCallee()) {
 					continue
 				}
 				ops := varargOperands(c.Call.Args[len(c.Call.Args)-1])
@@ -224,7 +228,14 @@ func (w *World) ruleNoValueWalkingFormat(r *Report, rule string, reach map[*ssa.
 				n++
 				// the format string: a constant fixed argument, or the first constant string operand
 				format, fi := "", -1
-				if sc := c.Call.StaticCallee(); !w.inPkg(sc) && strings.HasSuffix(sc.Name(), "f") && len(c.Call.Args) >= 2 {
+				if logger {
+					// logger.Debugf(format, operands...): the fixed argument is the format
+					if len(c.Call.Args) >= 2 {
+						if k, ok := c.Call.Args[len(c.Call.Args)-2].(*ssa.Const); ok && k.Value != nil && k.Value.Kind() == constant.String {
+							format = constant.StringVal(k.Value)
+						}
+					}
+				} else if sc := c.Call.StaticCallee(); !w.inPkg(sc) && strings.HasSuffix(sc.Name(), "f") && len(c.Call.Args) >= 2 {
 					// fmt's *f functions: the fixed argument before the operands is the format
 					if k, ok := c.Call.Args[len(c.Call.Args)-2].(*ssa.Const); ok && k.Value != nil && k.Value.Kind() == constant.String {
 						format = constant.StringVal(k.Value)
@@ -282,7 +293,7 @@ func (w *World) ruleNoValueWalkingFormat(r *Report, rule string, reach map[*ssa.
 					if verb == 0 {
 						vs = "no verb"
 					}
-					r.add(rule, fmt.Sprintf("%s · %s operand #%d", fnName(fn), qualifiedFnName(c.Call.StaticCallee()), i+1), w.instrPos(c), false,
+					r.add(rule, fmt.Sprintf("%s · %s operand #%d", fnName(fn), calleeLabel(c), i+1), w.instrPos(c), false,
 						fmt.Sprintf("an operand of type %s that can hold a decoded (possibly cyclic) value is formatted with %s: fmt walks lists, maps and interfaces without a visited set — a list that contains itself exhausts the stack (fatal, not recoverable)", typeStr(t), vs))
 				}
 			}
@@ -293,4 +304,30 @@ func (w *World) ruleNoValueWalkingFormat(r *Report, rule string, reach map[*ssa.
 		o.Trivial = n == 0
 	}
 	r.floor(rule+" (formatting calls)", n, 5)
+}
+
+// isLoggerCall: an interface method call with a trailing ...interface{} whose
+// name is a logging verb (Debugf, Infof, Printf, Error, …): loggers format
+// their operands with fmt.
+func isLoggerCall(c *ssa.Call) bool {
+	if !c.Call.IsInvoke() {
+		return false
+	}
+	sig := c.Call.Method.Type().(*types.Signature)
+	if !sig.Variadic() {
+		return false
+	}
+	for _, p := range []string{"Debug", "Info", "Warn", "Error", "Fatal", "Panic", "Print", "Trace", "Log"} {
+		if strings.HasPrefix(c.Call.Method.Name(), p) {
+			return true
+		}
+	}
+	return false
+}
+
+func calleeLabel(c *ssa.Call) string {
+	if c.Call.IsInvoke() {
+		return "(" + typeStr(c.Call.Value.Type()) + ")." + c.Call.Method.Name()
+	}
+	return qualifiedFnName(c.Call.StaticCallee())
 }
